@@ -628,8 +628,8 @@ def rule_retag(prog: Program, modules: Set[str]) -> List[Instance]:
         has_tagged_self = own is not None and (own.name in TAGGED or any(c.name in TAGGED for c in own.mro())) and fi.self_name is not None
         tagged_params = []
         for p in fi.params():
-            names, _ = prog.ann_classes(p.annotation, fi.mod)
-            if names & TAGGED:
+            names, contained = prog.ann_classes(p.annotation, fi.mod)
+            if (names | contained) & TAGGED:
                 tagged_params.append(p.arg)
         crs_params = [p.arg for p in fi.params() if p.arg in ("crs", "dst_crs", "output_crs")]
         if not (has_tagged_self or tagged_params):
@@ -684,7 +684,30 @@ def rule_retag(prog: Program, modules: Set[str]) -> List[Instance]:
                 continue
             roots = org.roots(crs_arg)
             allowed = set(tagged_params) | set(crs_params) | ({fi.self_name} if has_tagged_self and fi.self_name else set())
-            if roots & allowed:
+            # `X.crs` where X is the result of a function whose contract is crs=None (pixel-plane results):
+            # that attribute is always None, the operands' CRS never reaches the constructor
+            pix_src = None
+            if isinstance(crs_arg, ast.Attribute) and crs_arg.attr in ("crs", "_crs") and isinstance(crs_arg.value, ast.Name):
+                pending = [crs_arg.value.id]
+                seen_n = set()
+                while pending:
+                    nm_ = pending.pop()
+                    if nm_ in seen_n:
+                        continue
+                    seen_n.add(nm_)
+                    for _, v_ in org.defs.get(nm_, []):
+                        for c_ in ast.walk(v_):
+                            if isinstance(c_, ast.Call):
+                                t_ = prog.resolve_name_expr(c_.func, fi.mod, fi)
+                                if isinstance(t_, FuncInfo) and t_.qual in RETAG_NONE_OK:
+                                    pix_src = t_.qual
+                        # one hop through plain copies / calls over the name (bbox = bbox_intersection(<pixel boxes>))
+                        pending += [x.id for x in ast.walk(v_) if isinstance(x, ast.Name) and x.id in org.defs and x.id not in seen_n][:6]
+            if pix_src is not None and nm not in ("GeoBox", "GCPGeoBox"):
+                out.append(Instance("R-RETAG", cid, INFO, f"`{short(n, 50)}` stays in the pixel plane of {pix_src} (crs=None carried on purpose)", where, nontrivial=False))
+            elif pix_src is not None:
+                out.append(Instance("R-RETAG", cid, BAD, f"`{short(n, 60)}` is tagged with `{short(crs_arg)}`, but `{crs_arg.value.id}` comes from {pix_src}, whose results are in the pixel plane (crs=None by contract): the operands' CRS is lost", where))
+            elif roots & allowed:
                 out.append(Instance("R-RETAG", cid, OK, f"{nm}(...) tagged with `{short(crs_arg, 40)}` originating from {sorted(roots & allowed)}", where))
             elif isinstance(crs_arg, ast.Constant) or _is_literal_crs(crs_arg):
                 out.append(Instance("R-RETAG", cid, INFO, f"{nm}(...) tagged with literal CRS `{short(crs_arg, 40)}`", where, nontrivial=False))
